@@ -3,7 +3,7 @@
    whatever the failing sources would have delivered next (C08). *)
 From Juniper Require Import Common.Base Iter.Syntax Iter.Config Iter.ModelBase Iter.IterModel
   Iter.StreamModel Iter.Spec Iter.Contract Iter.FatalSim Iter.IterProofs Iter.StreamProofs
-  Iter.StreamFatal Iter.Reducers.
+  Iter.StreamFatal Iter.Reducers Iter.SContract.
 
 (* one Next of a possibly faulty pipeline state, seen through its scrubbed version *)
 Lemma sstep_fatal k live s : sok true (scrub k s) ->
@@ -58,30 +58,56 @@ Qed.
 (* a reducer outcome: an error, or the value v *)
 Definition err_or {A} (o : res A) (v : A) : Prop := (exists e, o = Err e) \/ o = Item v.
 
-Lemma sreduce_loop_fatal {A} k live (f : A -> Z -> A) : forall n acc s,
+(* the reduction function computes g or returns an error - it does not panic *)
+Lemma sreduce_loop_fatal {A} k live (f : A -> Z -> cbres A) (g : A -> Z -> A) :
+  (forall a x, f a x = CbOk (g a x) \/ exists e, f a x = CbErr e) -> forall n acc s,
   sok true (scrub k s) -> (ssize s < n)%nat ->
   exists o s' ev, sreduce_loop n live f acc s = (o, s', ev) /\
-                  err_or o (fold_left f (sden (scrub k s)) acc).
+                  err_or o (fold_left g (sden (scrub k s)) acc).
 Proof.
-  induction n as [|n IH]; intros acc s Hok Hn; [lia|]. simpl.
+  intros Hfg. induction n as [|n IH]; intros acc s Hok Hn; [lia|]. simpl.
   destruct (sstep_fatal k live s Hok) as (o & s1 & ev1 & E & [(e & He)|[Hok1 Hp]]); rewrite E.
   - subst o. simpl. do 3 eexists. split; [reflexivity|]. left. eauto.
   - destruct o as [x| | | |]; try (destruct Hp; fail).
-    + destruct Hp as [Hd Hs]. destruct (IH (f acc x) s1 Hok1 ltac:(lia)) as (o2 & s' & ev & E2 & H2).
-      rewrite E2. simpl. do 3 eexists. split; [reflexivity|]. rewrite Hd. exact H2.
+    + destruct Hp as [Hd Hs]. destruct (Hfg acc x) as [Hf|[e Hf]]; rewrite Hf.
+      * destruct (IH (g acc x) s1 Hok1 ltac:(lia)) as (o2 & s' & ev & E2 & H2).
+        rewrite E2. simpl. do 3 eexists. split; [reflexivity|]. rewrite Hd. exact H2.
+      * do 3 eexists. split; [reflexivity|]. left. eauto.
     + do 3 eexists. split; [reflexivity|]. right. rewrite Hp. reflexivity.
 Qed.
 
-Lemma sreduce_loop_clean {A} (f : A -> Z -> A) : forall n acc s,
+Lemma sreduce_loop_clean {A} (f : A -> Z -> cbres A) (g : A -> Z -> A) :
+  (forall a x, f a x = CbOk (g a x)) -> forall n acc s,
   sok false s -> (ssize s < n)%nat ->
-  exists s' ev, sreduce_loop n true f acc s = (Item (fold_left f (sden s) acc), s', ev).
+  exists s' ev, sreduce_loop n true f acc s = (Item (fold_left g (sden s) acc), s', ev).
 Proof.
-  induction n as [|n IH]; intros acc s Hok Hn; [lia|]. simpl.
+  intros Hfg. induction n as [|n IH]; intros acc s Hok Hn; [lia|]. simpl.
   destruct (sstep_clean s Hok) as (o & s1 & ev1 & E & Hok1 & Hp). rewrite E.
   destruct o as [x| | | |]; try (destruct Hp; fail).
-  - destruct Hp as [Hd Hs]. destruct (IH (f acc x) s1 Hok1 ltac:(lia)) as (s' & ev & E2).
+  - destruct Hp as [Hd Hs]. rewrite Hfg.
+    destruct (IH (g acc x) s1 Hok1 ltac:(lia)) as (s' & ev & E2).
     rewrite E2. simpl. rewrite Hd. eauto.
   - rewrite Hp. eauto.
+Qed.
+
+(* closing - by defer or explicitly - does not change the result *)
+Lemma reducer_close_res cfg {A} (o : res A) s' ev :
+  exists ev', reducer_close cfg (o, s', ev) = (o, s', ev').
+Proof.
+  unfold reducer_close, deferred_close, explicit_close.
+  destruct (cfg_defer_close cfg); [eauto|]. destruct o; eauto.
+Qed.
+
+(* Reduce with +: a reduction function that does not fail / that may return an error *)
+Lemma ssum_step_clean fl : fail_at fl = None ->
+  forall a x, ssum_step fl a x = CbOk (S (fst a), snd a + x).
+Proof. intros Hfl a x. unfold ssum_step. rewrite (fails_never fl _ Hfl). reflexivity. Qed.
+Lemma ssum_step_nopanic fl : cb_panics fl = false ->
+  forall a x, ssum_step fl a x = CbOk (S (fst a), snd a + x) \/ exists e, ssum_step fl a x = CbErr e.
+Proof.
+  intros Hfl a x. unfold ssum_step, cb_fail. destruct (fails_now fl (fst a)) eqn:Ef; [|auto].
+  right. unfold cb_panics in Hfl. unfold fails_now in Ef.
+  destruct (fail_panic fl); [|eauto]. destruct (fail_at fl); [discriminate Hfl|discriminate Ef].
 Qed.
 
 Lemma slast_loop_fatal k live n : 1 <= n -> forall j buf i s,
@@ -178,20 +204,29 @@ Section StreamRunsClean.
   Theorem stream_collect_den :
     results (run_stream_cfg cfg (inl p) (Reduce RCollect true)) = [RVal (den_z p)].
   Proof.
-    sinit_facts. unfold results, run_stream_cfg, srun_reduce, scollect, sreduce, deferred_close.
-    destruct (sreduce_loop_clean (fun out x => out ++ [x]) (sred_fuel (sinit p)) [] (sinit p) Hok
+    sinit_facts. unfold results, run_stream_cfg, srun_reduce, scollect, sreduce.
+    destruct (sreduce_loop_clean (fun out x => CbOk (out ++ [x])) (fun out x => out ++ [x])
+                                 ltac:(reflexivity) (sred_fuel (sinit p)) [] (sinit p) Hok
                                  ltac:(unfold sred_fuel; lia)) as (s' & ev & E).
-    rewrite E, fold_snoc, Hden. reflexivity.
+    rewrite E. destruct (reducer_close_res cfg (Item (fold_left (fun out x => out ++ [x])
+                                                               (sden (sinit p)) [])) s' ev)
+      as [ev' Hrc].
+    rewrite Hrc, fold_snoc, Hden. reflexivity.
   Qed.
 
-  Theorem stream_sum_den :
-    results (run_stream_cfg cfg (inl p) (Reduce RSum true))
+  (* a reduction function that never fails *)
+  Theorem stream_sum_den fl : fail_at fl = None ->
+    results (run_stream_cfg cfg (inl p) (Reduce (RSum fl) true))
     = [RVal [fold_left Z.add (den_z p) 0]].
   Proof.
-    sinit_facts. unfold results, run_stream_cfg, srun_reduce, sreduce, deferred_close.
-    destruct (sreduce_loop_clean Z.add (sred_fuel (sinit p)) 0 (sinit p) Hok
+    intros Hfl. sinit_facts. unfold results, run_stream_cfg, srun_reduce, sreduce.
+    destruct (sreduce_loop_clean (ssum_step fl) _ (ssum_step_clean fl Hfl)
+                                 (sred_fuel (sinit p)) (O, 0) (sinit p) Hok
                                  ltac:(unfold sred_fuel; lia)) as (s' & ev & E).
-    rewrite E, Hden. reflexivity.
+    rewrite E.
+    match goal with |- context [reducer_close cfg (Item ?v, s', ev)] =>
+      destruct (reducer_close_res cfg (Item v) s' ev) as [ev' Hrc] end.
+    rewrite Hrc. simpl. rewrite fold_sum_snd, Hden. reflexivity.
   Qed.
 
   Theorem stream_one_den :
@@ -199,7 +234,8 @@ Section StreamRunsClean.
   Proof.
     sinit_facts. unfold results, run_stream_cfg, srun_reduce, sone.
     destruct (sone_body_clean (sinit p) Hok) as (o & s' & ev & E & Ho).
-    destruct (cfg_one_closes cfg); unfold deferred_close; rewrite E; simpl;
+    destruct (reducer_close_res cfg o s' ev) as [ev' Hrc].
+    destruct (cfg_one_closes cfg); rewrite E, ?Hrc; simpl;
       rewrite Ho, Hden; reflexivity.
   Qed.
 
@@ -208,12 +244,14 @@ Section StreamRunsClean.
     = [RVal (lastn (Z.to_nat n) (den_z p))].
   Proof.
     intros Hg. sinit_facts.
-    unfold results, run_stream_cfg, srun_reduce, slast, deferred_close.
+    unfold results, run_stream_cfg, srun_reduce, slast.
     destruct (cfg_last_guard cfg && (n <=? 0)) eqn:Eg.
     - apply andb_true_iff in Eg. destruct Eg as [_ En]. apply Z.leb_le in En.
-      destruct (sreduce_loop_clean (fun (u : unit) _ => u) (sred_fuel (sinit p)) tt (sinit p) Hok
+      destruct (sreduce_loop_clean (fun (u : unit) _ => CbOk u) (fun (u : unit) _ => u)
+                                   ltac:(reflexivity) (sred_fuel (sinit p)) tt (sinit p) Hok
                                    ltac:(unfold sred_fuel; lia)) as (s' & ev & E).
-      rewrite E. replace (Z.to_nat n) with O by lia. rewrite lastn_zero. reflexivity.
+      rewrite E. destruct (reducer_close_res cfg (Item (@nil Z)) s' ev) as [ev' Hrc].
+      rewrite Hrc. replace (Z.to_nat n) with O by lia. rewrite lastn_zero. reflexivity.
     - assert (Hn : 1 <= n).
       { destruct Hg as [Hg|Hg]; [|exact Hg]. rewrite Hg in Eg. simpl in Eg.
         apply Z.leb_gt in Eg. lia. }
@@ -225,7 +263,9 @@ Section StreamRunsClean.
       pose proof (ring_inv_fold n (sden (sinit p)) Hn [] _ (ring_inv_init n Hn)) as Hinv.
       simpl in Hinv.
       destruct (fold_left (ring_push n) (sden (sinit p)) (zrepeat 0 n, 0)) as [buf i] eqn:Ef.
-      rewrite (last_finish_spec n (sden (sinit p)) buf i Hn Hinv), Hden. reflexivity.
+      rewrite (last_finish_spec n (sden (sinit p)) buf i Hn Hinv), Hden.
+      destruct (reducer_close_res cfg (Item (lastn (Z.to_nat n) (den_z p))) s' ev) as [ev' Hrc].
+      rewrite Hrc. reflexivity.
   Qed.
 End StreamRunsClean.
 
@@ -233,10 +273,11 @@ End StreamRunsClean.
 Section StreamRunsFaulty.
   Variables (cfg : config) (p : pz) (live : bool) (k : list sevent).
   Hypothesis Hd : dom_z p.
-  Hypothesis Hk : no_fatal k.
+  Hypothesis Hnp : no_panics_z p = true.
+  Hypothesis Hk : script_ok k.
 
   Ltac finit_facts :=
-    pose proof (proj1 (sinit_ok true) _ (proj1 (scrub_ok k Hk) p Hd)) as Hok;
+    pose proof (proj1 (sinit_ok true) _ (proj1 (scrub_ok k Hk) p Hd Hnp)) as Hok;
     rewrite (proj1 (sinit_scrub k)) in Hok;
     pose proof (proj1 sinit_den (pz_scrub k p)) as Hden;
     rewrite (proj1 (sinit_scrub k)) in Hden.
@@ -247,25 +288,33 @@ Section StreamRunsFaulty.
     (exists e, results (run_stream_cfg cfg (inl p) (Reduce RCollect live)) = [RErr e]) \/
     results (run_stream_cfg cfg (inl p) (Reduce RCollect live)) = [RVal (den_z (pz_scrub k p))].
   Proof.
-    finit_facts. unfold results, run_stream_cfg, srun_reduce, scollect, sreduce, deferred_close.
-    destruct (sreduce_loop_fatal k live (fun out x => out ++ [x]) (sred_fuel (sinit p)) []
+    finit_facts. unfold results, run_stream_cfg, srun_reduce, scollect, sreduce.
+    destruct (sreduce_loop_fatal k live (fun out x => CbOk (out ++ [x]))
+                                 (fun out x => out ++ [x]) ltac:(intros; left; reflexivity)
+                                 (sred_fuel (sinit p)) []
                                  (sinit p) Hok ltac:(unfold sred_fuel; lia))
-      as (o & s' & ev & E & [(e & He)|He]); rewrite E; subst o; simpl.
+      as (o & s' & ev & E & [(e & He)|He]); rewrite E; subst o;
+      match goal with |- context [reducer_close cfg (?o, s', ev)] =>
+        destruct (reducer_close_res cfg o s' ev) as [ev' Hrc] end; rewrite Hrc; simpl.
     - left. eauto.
     - right. rewrite fold_snoc, Hden. reflexivity.
   Qed.
 
-  Theorem stream_sum_fatal :
-    (exists e, results (run_stream_cfg cfg (inl p) (Reduce RSum live)) = [RErr e]) \/
-    results (run_stream_cfg cfg (inl p) (Reduce RSum live))
+  (* the reduction function may return an error too (it does not panic) *)
+  Theorem stream_sum_fatal fl : cb_panics fl = false ->
+    (exists e, results (run_stream_cfg cfg (inl p) (Reduce (RSum fl) live)) = [RErr e]) \/
+    results (run_stream_cfg cfg (inl p) (Reduce (RSum fl) live))
     = [RVal [fold_left Z.add (den_z (pz_scrub k p)) 0]].
   Proof.
-    finit_facts. unfold results, run_stream_cfg, srun_reduce, sreduce, deferred_close.
-    destruct (sreduce_loop_fatal k live Z.add (sred_fuel (sinit p)) 0
+    intros Hfl. finit_facts. unfold results, run_stream_cfg, srun_reduce, sreduce.
+    destruct (sreduce_loop_fatal k live (ssum_step fl) _ (ssum_step_nopanic fl Hfl)
+                                 (sred_fuel (sinit p)) (O, 0)
                                  (sinit p) Hok ltac:(unfold sred_fuel; lia))
-      as (o & s' & ev & E & [(e & He)|He]); rewrite E; subst o; simpl.
+      as (o & s' & ev & E & [(e & He)|He]); rewrite E; subst o;
+      match goal with |- context [reducer_close cfg (?o, s', ev)] =>
+        destruct (reducer_close_res cfg o s' ev) as [ev' Hrc] end; rewrite Hrc; simpl.
     - left. eauto.
-    - right. rewrite Hden. reflexivity.
+    - right. rewrite fold_sum_snd, Hden. reflexivity.
   Qed.
 
   Theorem stream_one_fatal :
@@ -275,7 +324,8 @@ Section StreamRunsFaulty.
     finit_facts. unfold results, run_stream_cfg, srun_reduce, sone.
     destruct (sone_body_fatal k live (sinit p) Hok) as (o & s' & ev & E & Ho).
     assert (Hres : forall lg, map so_res [mkStepObs (obs_val o) lg] = [obs_val o]) by reflexivity.
-    destruct (cfg_one_closes cfg); unfold deferred_close; rewrite E; simpl;
+    destruct (reducer_close_res cfg o s' ev) as [ev' Hrc].
+    destruct (cfg_one_closes cfg); rewrite E, ?Hrc; simpl;
       (destruct Ho as [(e & He)|He]; rewrite He; [left; eauto|right; rewrite Hden; reflexivity]).
   Qed.
 
@@ -285,12 +335,15 @@ Section StreamRunsFaulty.
     = [RVal (lastn (Z.to_nat n) (den_z (pz_scrub k p)))].
   Proof.
     intros Hg. finit_facts.
-    unfold results, run_stream_cfg, srun_reduce, slast, deferred_close.
+    unfold results, run_stream_cfg, srun_reduce, slast.
     destruct (cfg_last_guard cfg && (n <=? 0)) eqn:Eg.
     - apply andb_true_iff in Eg. destruct Eg as [_ En]. apply Z.leb_le in En.
-      destruct (sreduce_loop_fatal k live (fun (u : unit) _ => u) (sred_fuel (sinit p)) tt
+      destruct (sreduce_loop_fatal k live (fun (u : unit) _ => CbOk u) (fun (u : unit) _ => u)
+                                   ltac:(intros; left; reflexivity) (sred_fuel (sinit p)) tt
                                    (sinit p) Hok ltac:(unfold sred_fuel; lia))
-        as (o & s' & ev & E & [(e & He)|He]); rewrite E; subst o; simpl.
+        as (o & s' & ev & E & [(e & He)|He]); rewrite E; subst o;
+        match goal with |- context [reducer_close cfg (?o, s', ev)] =>
+          destruct (reducer_close_res cfg o s' ev) as [ev' Hrc] end; rewrite Hrc; simpl.
       + left. eauto.
       + right. replace (Z.to_nat n) with O by lia. rewrite lastn_zero. reflexivity.
     - assert (Hn : 1 <= n).
@@ -300,14 +353,18 @@ Section StreamRunsFaulty.
       destruct (slast_loop_fatal k live n Hn (sred_fuel (sinit p)) (zrepeat 0 n) 0 (sinit p) Hok
                                  ltac:(unfold sred_fuel; lia) ltac:(lia)
                                  ltac:(apply zlen_repeat; lia))
-        as (o & s' & ev & E & [(e & He)|He]); rewrite E; subst o; simpl.
-      + left. eauto.
+        as (o & s' & ev & E & [(e & He)|He]); rewrite E; subst o.
+      + destruct (reducer_close_res cfg (@Err (list Z) e) s' ev) as [ev' Hrc].
+        simpl. rewrite Hrc. simpl. left. eauto.
       + right.
         pose proof (ring_inv_fold n (sden (scrub k (sinit p))) Hn [] _ (ring_inv_init n Hn))
           as Hinv. simpl in Hinv.
         destruct (fold_left (ring_push n) (sden (scrub k (sinit p))) (zrepeat 0 n, 0))
           as [buf i] eqn:Ef.
-        rewrite (last_finish_spec n _ buf i Hn Hinv), Hden. reflexivity.
+        rewrite (last_finish_spec n _ buf i Hn Hinv), Hden.
+        match goal with |- context [reducer_close cfg (?o, s', ev)] =>
+          destruct (reducer_close_res cfg o s' ev) as [ev' Hrc] end.
+        rewrite Hrc. reflexivity.
   Qed.
 End StreamRunsFaulty.
 
@@ -370,4 +427,36 @@ Proof.
                 (srun_init_ok true p Hok)) as H.
   destruct (srun_steps (sort_ids (pipe_ids p)) (srun_init p) [] (map CNext lives ++ [CClose]))
     as [steps log]. exact H.
+Qed.
+
+(* No run is ever cut short, whatever the pipeline and its faults: a step that panics is
+   recovered by the consumer (observation RPanic), and the fuel of the model is always enough. *)
+Lemma srun_next_goes_on live s o s' ev : srun_next live s = (o, s', ev) -> stops o = false.
+Proof.
+  destruct s as [s|q]; simpl.
+  - destruct (sstep live s) as [[o1 s1] ev1] eqn:E. intros Hc. inv_ret Hc.
+    pose proof (snext_fuel_enough _ _ _ _ _ E) as Hno. destruct o1; try reflexivity. congruence.
+  - destruct (slstep live q) as [[o1 q1] ev1] eqn:E. intros Hc. inv_ret Hc.
+    pose proof (slnext_fuel_enough _ _ _ _ _ E) as Hno. destruct o1; try reflexivity. congruence.
+Qed.
+
+Lemma srun_steps_length ids : forall ops s log,
+  length (fst (srun_steps ids s log ops)) = length ops.
+Proof.
+  induction ops as [|op ops IH]; intros s log; simpl; [reflexivity|]. destruct op as [live|].
+  - destruct (srun_next live s) as [[o s1] ev1] eqn:E.
+    rewrite (srun_next_goes_on _ _ _ _ _ E).
+    specialize (IH s1 (log ++ ev1)).
+    destruct (srun_steps ids s1 (log ++ ev1) ops) as [r l]. simpl in *. rewrite IH. reflexivity.
+  - specialize (IH s (log ++ srun_close s)).
+    destruct (srun_steps ids s (log ++ srun_close s) ops) as [r l]. simpl in *.
+    rewrite IH. reflexivity.
+Qed.
+
+Theorem stream_steps_complete_all cfg p ops :
+  length (ro_steps (run_stream_cfg cfg p (Steps ops))) = length ops.
+Proof.
+  unfold run_stream_cfg.
+  pose proof (srun_steps_length (sort_ids (pipe_ids p)) ops (srun_init p) []) as H.
+  destruct (srun_steps (sort_ids (pipe_ids p)) (srun_init p) [] ops) as [steps log]. exact H.
 Qed.
